@@ -33,7 +33,8 @@ class QModel:
             return
         for lb in [lb for lb, r in self.paused.items() if r[2] == asset]:
             t, pr, a, at = self.paused.pop(lb)
-            self.q[lb] = [t + (self.now - at), pr, a]
+            # original time plus the length of the pause; never before the present (float rounding, see F11)
+            self.q[lb] = [max(self.now, t + (self.now - at)), pr, a]
 
     def cancel(self, asset):
         if asset is None:
